@@ -244,6 +244,7 @@ class Engine:
                           ())
 
     GHOST_SORTS = {}
+    SCRATCH_GHOSTS = ()
 
     def gread(self, st, name):
         if name not in st.g:
@@ -1635,7 +1636,7 @@ class Engine:
                         notallowed = z3.And(notallowed, is_alloc(self.gread(entry, 'alloc'), o))
                     self.oblige(s1, z3.Implies(notallowed, cur == ent), 'frame', tag + field)
             for gname in list(s1.g.keys()):
-                if gname in mod_ghost or gname in ('alloc', 'cb_exc'):
+                if gname in mod_ghost or gname in ('alloc', 'cb_exc') or gname in self.SCRATCH_GHOSTS:
                     continue
                 g0 = self.gread(entry, gname)
                 if not g0.eq(s1.g[gname]):
